@@ -91,7 +91,23 @@ def w_percentile(a, q, *args, **kw):
     return r
 
 
+_quantile = np.quantile
+
+
+def w_quantile(a, q, *args, **kw):
+    """np.quantile(a, q) == np.percentile(a, 100 q): recorded in percent units"""
+    r = _quantile(a, q, *args, **kw)
+    try:
+        PCT.append({"d": [fx(v) for v in np.asarray(a, dtype=float).ravel().tolist()],
+                    "q": [fx(float(v) * 100.0) for v in np.asarray(q, dtype=float).ravel().tolist()],
+                    "cuts": [fx(v) for v in np.asarray(r, dtype=float).ravel().tolist()], "via": "quantile"})
+    except Exception as e:
+        PCT.append({"error": repr(e)})
+    return r
+
+
 np.random.choice, np.random.randint, np.random.shuffle, np.percentile = w_choice, w_randint, w_shuffle, w_percentile
+np.quantile = w_quantile
 ccmod.resample = w_resample
 
 
@@ -158,8 +174,17 @@ def mk_idx(spec):
     return int(v)
 
 
+LAST_P = []
+P_OBJECTS = {}          # per history: class-distribution objects shared between calls ("ref")
+
+
 def mk_p(spec):
-    """{"v": float or [floats] given as [num, den], "as": "scalar" | "list" | "array"}"""
+    """{"v": float or [floats] given as [num, den], "as": "scalar" | "list" | "array", "ref": name of a shared object}"""
+    ref = spec.get("ref")
+    if ref is not None:
+        if ref not in P_OBJECTS:
+            P_OBJECTS[ref] = mk_p({k: v for k, v in spec.items() if k != "ref"})
+        return P_OBJECTS[ref]
     how = spec.get("as", "scalar")
     if how == "scalar":
         return spec["v"][0] / spec["v"][1]
@@ -206,7 +231,9 @@ def apply_op(g, X, op):
             kw["decision_function"] = DECISIONS[op["relation"]]
         else:
             kw["class_relation"] = op["relation"]
-        y = g.generate_labels(X, n=op["n"], p=mk_p(op["p"]), k=op.get("k", 2), **kw)
+        pobj = mk_p(op["p"])
+        y = g.generate_labels(X, n=op["n"], p=pobj, k=op.get("k", 2), **kw)
+        LAST_P[:] = [pobj]
         return X, y
     if k == "noise":
         y = np.array(op["y"], dtype=int)
@@ -252,6 +279,12 @@ def run_single(g, case, X):
         y = np.asarray(y)
         out["y"] = mat(y)
         out["pct"] = list(PCT)
+        # is the caller's class-distribution object still what was passed? (observed; the property does not speak about it)
+        try:
+            fresh = mk_p({k_: v_ for k_, v_ in case["p"].items() if k_ != "ref"})
+            out["p_unchanged"] = bool(np.array_equal(np.asarray(LAST_P[0], dtype=float), np.asarray(fresh, dtype=float)))
+        except Exception:
+            out["p_unchanged"] = False
     elif kind in ("noise_cat", "noise_missing"):
         y = np.array(case["y"], dtype=int)
         y0 = y.copy()
@@ -298,7 +331,11 @@ def history_input(g, step, mats):
         return mk_X(step)
     if "gen" in src:
         a = src["gen"]
-        return g.generate_data(a["n_features"], a["n_samples"], cardinality=a.get("cardinality", 5), seed=a.get("seed", 42))
+        structure = None
+        if a.get("structure") is not None:       # [[feature index, [value domain, value frequencies]], ...]
+            structure = [(int(ix), [list(dom), [f[0] / f[1] for f in fr]]) for ix, (dom, fr) in a["structure"]]
+        return g.generate_data(a["n_features"], a["n_samples"], cardinality=a.get("cardinality", 5), structure=structure,
+                               seed=a.get("seed", 42))
     M = mats[src["step"]][src.get("what", "out")]
     if M is None:
         raise ValueError("history step refers to a call without a result matrix")
@@ -311,6 +348,7 @@ def history_input(g, step, mats):
 
 
 def run_case(case):
+    P_OBJECTS.clear()
     kind = case["kind"]
     np.random.seed(case.get("seed", 0))
     g = CC(seed=case.get("seed", 0))
